@@ -129,6 +129,10 @@ inline const vector<Shape>& shapes() {
     {"le", CK_NUM, "<=2", {1, 2}, {}},
     {"ge", CK_NUM, ">=3", {3, 4}, {}},
     {"mixed", CK_NUM, "1;3-4", {1, 3, 4}, {}},
+    // ranges that overlap / contain each other, entries not in ascending order, two open ranges (an entry list is an OR)
+    {"nested", CK_NUM, "2-9;3-5", {2, 3, 4}, {}},
+    {"unsorted", CK_NUM, "3-4;1", {1, 3, 4}, {}},
+    {"outer", CK_NUM, "<2;>3", {1, 4}, {}},
     {"string", CK_STR, "", {}, {0}},
     {"strlist", CK_STR, "", {}, {0, 2}},
     {"seen", CK_SEEN, "", {}, {}},
@@ -625,7 +629,7 @@ inline vector<string> enumerate(bool thorough) {
     }
   }
   // derived on the fly
-  for (const char* base : {"list", "seen"}) for (const char* s : {"list", "range", "lt", "gt", "le", "ge", "mixed", "string", "strlist"}) {
+  for (const char* base : {"list", "seen"}) for (const char* s : {"list", "range", "lt", "gt", "le", "ge", "mixed", "nested", "outer", "string", "strlist"}) {
     for (const char* lay : {"N", "NS", "SN", "S", "NN"}) {
       bool str = string(s) == "string" || string(s) == "strlist";
       string l = lay;
@@ -642,7 +646,7 @@ inline vector<string> enumerate(bool thorough) {
     }
   }
   // scan conditions (identification message of address 08: MF numeric, ID string, SW/HW numeric)
-  for (const char* s : {"list", "range", "lt", "gt", "le", "ge", "mixed"}) for (const char* r : {"n2", "n3", "n0", "u", "x", "n1"}) out.push_back(string("fam=scan;shape=") + s + ";ref=" + r);
+  for (const char* s : {"list", "range", "lt", "gt", "le", "ge", "mixed", "nested"}) for (const char* r : {"n2", "n3", "n0", "u", "x", "n1"}) out.push_back(string("fam=scan;shape=") + s + ";ref=" + r);
   for (const char* s : {"string", "strlist"}) for (const char* r : {"n1", "x", "n2"}) out.push_back(string("fam=scan;shape=") + s + ";ref=" + r);
   out.push_back("fam=scan;shape=seen;ref=u");
   return out;
